@@ -1,6 +1,6 @@
 (* C06 property theorems. Statements closed by `exact lemma`, followed by Print Assumptions. *)
 From Coq Require Import ZArith NArith List Bool String Lia Permutation.
-From OG Require Import C06.Model C06.ModelStream C06.Proofs C06.ProofsInt C06.ProofsDec C06.ProofsRender C06.ProofsStream C06.ProofsFloat C06.ProofsFloatAll C06.ProofsDecParse C06.ModelWriter C06.ProofsWriter.
+From OG Require Import C06.Model C06.ModelStream C06.Proofs C06.ProofsInt C06.ProofsDec C06.ProofsRender C06.ProofsStream C06.ProofsFloat C06.ProofsFloatAll C06.ProofsDecParse C06.ProofsValidGrammar C06.ModelWriter C06.ProofsWriter.
 Import ListNotations.
 Open Scope Z_scope.
 
@@ -359,6 +359,18 @@ Theorem C06_dec_parse_int_exp : forall sg I ec es X,
   dec_parse (sign_text sg ++ I ++ ec :: sign_text es ++ X) = mk (sign_neg sg) (dec_val I) 0 (sign_neg es) (dec_val X).
 Proof. exact dec_parse_int_exp. Qed.
 Print Assumptions C06_dec_parse_point_exp.
+
+(* ... and every text IsValidNumber accepts is a literal of that grammar (so the four theorems above give the value of every
+   float literal the parser can accept) *)
+Theorem C06_valid_number_is_grammar_literal : forall s, valid_number s = true ->
+  exists sg I, all_digits I = true /\
+    ((I <> [] /\ s = sign_text sg ++ I) \/
+     (exists F, all_digits F = true /\ (I <> [] \/ F <> []) /\ s = sign_text sg ++ I ++ c_dot :: F) \/
+     (exists ec es X, I <> [] /\ is_e ec = true /\ all_digits X = true /\ X <> [] /\ s = sign_text sg ++ I ++ ec :: sign_text es ++ X) \/
+     (exists F ec es X, all_digits F = true /\ (I <> [] \/ F <> []) /\ is_e ec = true /\ all_digits X = true /\ X <> [] /\
+                        s = sign_text sg ++ I ++ c_dot :: F ++ ec :: sign_text es ++ X)).
+Proof. exact valid_number_grammar. Qed.
+Print Assumptions C06_valid_number_is_grammar_literal.
 
 Example C06_example_round_ratio :
   round_ratio false 1 10 = FFin false 7205759403792794 (-56) /\                 (* 0.1 = 0x1.999999999999ap-4 *)
